@@ -39,8 +39,16 @@ Inductive op : Set :=
 | OpDecode (o : nat) (bs : list N)              (* objs[o].decode(PDU(bs)); o fresh or used *)
 | OpPut (o : nat) (extra : list N)              (* objs[o].put_data(extra): in-place append *)
 | OpEncodeInto (o : nat) (h : apci) (p : list N)(* a fresh APDU (h, p) does .encode(objs[o]) *)
-| OpTyped (dst src : nat)                       (* objs[dst] = apdu_types[t](); objs[dst].decode(objs[src]) *)
-| OpReencode (o : nat).                         (* objs[o] encoded into a fresh PDU; octets observed *)
+| OpTyped (dst src : nat)                       (* objs[dst].decode(objs[src]) with objs[dst] of a typed class — a new
+                                                   apdu_types[t]() or one that was decoded into before: _APDU.decode
+                                                   replaces whatever it held *)
+| OpReencode (o : nat)                          (* objs[o] encoded into a fresh PDU; octets observed *)
+(* round 3: the SOURCE of a decode / the TARGET of an encode is itself an object of the store that
+   the application keeps using (relay through the same PDU, receive-buffer reuse) *)
+| OpNew (o : nat)                               (* objs[o] = PDU(): fresh and empty *)
+| OpDecodeFrom (o src : nat)                    (* objs[o].decode(objs[src]): APDU.decode drains the source *)
+| OpEncodeTo (o dst : nat)                      (* objs[o].encode(objs[dst]): APDU.encode appends to the target *)
+| OpPeek (o : nat).                             (* bytes(objs[o].pduData) observed *)
 
 Definition framed (l : list Z) : list Z := zlen l :: l.
 
@@ -65,6 +73,22 @@ Definition step (st : store) (x : op) : store * list Z :=
       let '(a, p) := lookup st src in (update (update st src (a, [])) dst (a, p), [])
   | OpReencode o =>
       let '(a, p) := lookup st o in (st, framed (canon_enc (enc_apdu a p)))
+  | OpNew o => (update st o fresh_obj, [])
+  | OpDecodeFrom o src =>
+      (* APDU.decode(self, pdu): header attributes overlaid, self.pduData REPLACED by what follows the
+         header, and pdu.get_data(len(pdu.pduData)) leaves the source empty (apdu.py:378-382) *)
+      let '(sa, sbs) := lookup st src in
+      match dec_into (fst (lookup st o)) sbs with
+      | Ok (a, r) => (update (update st src (sa, [])) o (a, r), framed (canon_dec (Ok (a, r))))
+      | Err e => (st, framed [1; err_code e])       (* neither object is used again (generator) *)
+      end
+  | OpEncodeTo o dst =>
+      let '(a, p) := lookup st o in
+      match enc_apdu a p with
+      | Ok bs => let '(da, dd) := lookup st dst in (update st dst (da, dd ++ bs), framed [0])
+      | Err e => (st, framed [1; err_code e])
+      end
+  | OpPeek o => (st, framed (zs (snd (lookup st o))))
   end.
 
 Fixpoint run (st : store) (ops : list op) : list Z :=
@@ -77,6 +101,18 @@ Definition canon_session (ops : list op) : list Z := run [] ops.
 (* the objects an operation names *)
 Definition touched (x : op) : list nat :=
   match x with
-  | OpDecode o _ | OpPut o _ | OpEncodeInto o _ _ | OpReencode o => [o]
-  | OpTyped dst src => [dst; src]
+  | OpDecode o _ | OpPut o _ | OpEncodeInto o _ _ | OpReencode o | OpNew o | OpPeek o => [o]
+  | OpTyped dst src | OpDecodeFrom dst src | OpEncodeTo src dst => [dst; src]
   end.
+
+(* ---- large payloads (sizes at and around the largest APDU, 1476 octets, and far beyond): the
+   payload is the pattern pat n k, and the canonical result says whether the octets after the
+   header ARE that pattern, so that the case text stays small while every octet is compared *)
+Definition pat (n : nat) (k : N) : list N :=
+  map (fun i => ((N.of_nat i * 7 + k) mod 256)%N) (seq 0 n).
+Definition same_octets (a b : list N) : Z := zb (list_eqb N.eqb a b).
+Definition canon_enc_big (n : nat) (k : N) (r : res (list N)) : list Z :=
+  cres (fun bs => let hl := (length bs - n)%nat in
+                  zs (firstn hl bs) ++ [zlen bs; same_octets (skipn hl bs) (pat n k)]) r.
+Definition canon_dec_big (n : nat) (k : N) (r : res (apci * list N)) : list Z :=
+  cres (fun p => canon_apci (fst p) ++ [zlen (snd p); same_octets (snd p) (pat n k)]) r.
